@@ -942,6 +942,8 @@ class MapOverlapAlign(Expr):
 
 
 class MapOverlap(MapPartitions):
+    # not a parameter of this class; MapPartitions._simplify_up looks at it
+    required_columns = None
     _parameters = [
         "frame",
         "func",
